@@ -27,6 +27,7 @@ EXPLANATION = (
     "is covered by the keys the dispatcher guards before dispatch, unconditionally; R17.3 (observation) roots used by guard and "
     "default listing. Does not decide: symlink races in the file system, MIME handling."
     " R17.3 the guard's root is assigned only the configured directory or the folder that holds the given file (one step up from a given path), never a computed ancestor."
+    " R17.4 a request's data stays in locals: nothing is written to the application object or the module while a request is served."
 )
 RULE_TEXT = (
     "one obligation per (source label, sink) flow, per guard site and per containment predicate; non-trivial = flows and guards "
